@@ -3,7 +3,7 @@ import random
 import vlib
 from props import exact_common as ec
 
-PIPES = {"hull": ec.pipe("hull")}
+PIPES = {"hull": ec.pipe("hull"), "setorder": ec.pipe("setorder", "setorder")}
 
 
 def seeded(seed, n):
@@ -37,7 +37,10 @@ def seeded(seed, n):
 
 
 def run(ctx, verdict):
-    ec.family(ctx, verdict, "hull", nontrivial=lambda c: len({tuple(p) for p in c["pts"]}) >= 3)
+    enumerated = ec.family(ctx, verdict, "hull", nontrivial=lambda c: len({tuple(p) for p in c["pts"]}) >= 3)
+    # the components the hull is assembled from (anchors: transform.UniqueCoords / TreeSet, sorting.FlatCoord)
+    sub = enumerated if not ctx.quick else [c for i, c in enumerate(enumerated) if len(c["pts"]) <= 3 or i % 4 == 0]
+    ec.pipe("setorder", "setorder")(ctx, verdict, sub)
     cases = seeded(ctx.seed, 300 if ctx.quick else 4000)
     vlib.note_cases(ctx, cases, nontrivial=lambda c: len({tuple(p) for p in c["pts"]}) >= 3)
     ec.pipe("hull")(ctx, verdict, cases)
